@@ -263,6 +263,13 @@ func c08(ctx *run.Ctx) {
 				// open/high/low vary independently of the close: the outcome is defined on closings
 				snaps[i] = &asset.Snapshot{Date: reg.Day(i), Close: closes[i], Open: closes[i] * cc.R.FRange(0.9, 1.1), High: closes[i] * cc.R.FRange(1.1, 1.3), Low: closes[i] * cc.R.FRange(0.7, 0.9), Volume: float64(cc.R.Range(1, 1000))}
 			}
+			if n > 2 && rep%3 == 0 {
+				// dirty data: a close outside its own bar's [low, high]; the outcome is defined on closings all the same
+				k := cc.R.Range(0, n-1)
+				snaps[k].Low, snaps[k].High = closes[k]*1.2, closes[k]*1.5
+				k2 := cc.R.Range(0, n-1)
+				snaps[k2].Low, snaps[k2].High = closes[k2]*0.2, closes[k2]*0.6
+			}
 			actions, outcomes := strategy.ComputeWithOutcome(bah, helper.SliceToChan(snaps))
 			res := make(chan []strategy.Action, 1)
 			go func() { res <- helper.ChanToSlice(actions) }()
